@@ -98,4 +98,5 @@ func vh_RV() {
 	// the log is never touched by RequestVote
 	vAssert(vAnd(post.logLen == pre.logLen, vAnd(post.lastIndex == pre.lastIndex, post.lastTerm == pre.lastTerm)), "C01|C06.rv-log-untouched")
 	vAssert(vAnd(post.commit == pre.commit, post.applied == pre.applied), "C01.rv-commit-untouched")
+	vCheckInv(n, true, true)
 }
